@@ -185,6 +185,7 @@ def check(db, rep):
             r5.ok(cls + '::TranslateAll', 'translates every stored constituent', '%s:%d' % (ta.file, ta.line))
         else:
             r5.violation(cls + '::TranslateAll', '%s:%d' % (ta.file, ta.line), 'TranslateAll does not translate every stored constituent')
+    _units_and_support(db, rep)
 
 
 def _flat(k):
@@ -207,3 +208,66 @@ def _has_sub(k):
             return True
         return any(_has_sub(x) for x in k)
     return False
+
+
+def _units_and_support(db, rep):
+    """r6 UNITS: byte-level string edits of reference texts take byte quantities (BytePosition / size), never code-point quantities of a StrRange;
+    r7 SUPPORT (shared with C07 r1 and C12 r5): a translation refreshes the dependency graph of every rewritten constituent and re-analyses it;
+    a merge translates every copy only after the alias map is complete."""
+    r6 = rep.rule('r6', 'UNITS: std::string::replace/erase/insert/substr on a text containing references receive byte positions and byte lengths; StrRange fields (code points) reach them only through UTF8Iterator(...).BytePosition()', 1)
+    BYTE_API = ('replace', 'erase', 'insert', 'substr')
+    n_sites = 0
+    for f in db.functions:
+        if not f.has_cfg() or not f.file or not f.file.startswith('ccl/cclLang/src/') or '/test/' in f.file:
+            continue
+        for c in f.calls():
+            cs = c.get('cs') or ''
+            if not (cs.startswith(('std::basic_string::', 'std::__cxx11::basic_string::')) and cs.split('::')[-1] in BYTE_API and 'obj' in c):
+                continue
+            n_sites += 1
+            inst = '%s:%s' % (f.name.replace('ccl::lang::', ''), c.get('txt', '')[:36])
+            bad = None
+            for a in c.get('args', [])[:2]:
+                src = _codepoint_source(f, f.stmts[a], 0)
+                if src:
+                    bad = (f.stmts[a].get('txt', '')[:40], src)
+            if bad:
+                r6.violation(inst, f.loc(c), 'argument `%s` of a byte-level string edit is a code-point quantity (%s): the edit is off by the number of extra bytes of every multi-byte symbol before or inside the reference' % bad)
+            else:
+                r6.ok(inst, 'byte quantities only', f.loc(c))
+    if n_sites == 0:
+        r6.broken('no byte-level string edit found in cclLang (anchor vanished)')
+    r7 = rep.rule('r7', 'SUPPORT (shared with C07 r1, C12 r5): translation refreshes graph and analysis of every rewritten constituent; a merge translates copies only with the complete alias map', 10)
+    from rules import C07, C12
+    from engine.modset import ModSets
+    C07.refresh_rule(db, rep, r7, ModSets(db), ((C07.SCHEMA, C07._classify_schema, C07._families_schema),))
+    C12._merge_rule(db, r7, db.fn(S + 'rsOperationFacet::MergeWith'))
+
+
+def _codepoint_source(f, n, depth):
+    """text of a code-point quantity inside expression n that is not converted through a UTF8Iterator, else None"""
+    n = f.strip(n)
+    if n is None or depth > 4:
+        return None
+    if n['k'] in ('CXXConstructExpr', 'CXXTemporaryObjectExpr', 'CXXFunctionalCastExpr') and 'UTF8Iterator' in (n.get('cls') or n.get('t', '')):
+        return None           # UTF8Iterator(text, codepoint position): the conversion point
+    if n['k'] == 'CXXMemberCallExpr' and (n.get('cs') or '').endswith('UTF8Iterator::BytePosition'):
+        return None
+    if n['k'] == 'MemberExpr' and n.get('member') in ('start', 'finish') and 'StrRange' in (n.get('qn') or '') + (n.get('fcls') or ''):
+        return n.get('txt', 'StrRange field')
+    if n['k'] == 'CXXMemberCallExpr' and (n.get('cs') or '').endswith('StrRange::length'):
+        return n.get('txt', 'StrRange::length()')
+    if n['k'] == 'CallExpr' and (n.get('cs') or '').endswith('SizeInCodePoints'):
+        return n.get('txt', 'SizeInCodePoints')
+    if n['k'] == 'DeclRefExpr' and n.get('dk') == 'local':
+        for s0 in f.rec['stmts']:
+            if s0['k'] == 'DeclStmt':
+                for d in s0.get('decls', []):
+                    if d.get('did') == n.get('did') and 'init' in d:
+                        return _codepoint_source(f, f.stmts[d['init']], depth + 1)
+        return None
+    for c in f.children(n):
+        r = _codepoint_source(f, c, depth + 1)
+        if r:
+            return r
+    return None
